@@ -10,6 +10,7 @@ pub mod c10;
 pub mod c11;
 pub mod c12;
 pub mod c13;
+pub mod c14;
 pub mod c15;
 pub mod c16;
 pub mod c17;
@@ -31,6 +32,7 @@ pub fn run(ctx: &Ctx) -> i32 {
         "C11" => c11::run(ctx),
         "C12" => c12::run(ctx),
         "C13" => c13::run(ctx),
+        "C14" => c14::run(ctx),
         "C15" => c15::run(ctx),
         "C16" => c16::run(ctx),
         "C17" => c17::run(ctx),
@@ -56,6 +58,7 @@ pub fn replay(id: &str, payload: &serde_json::Value) -> bool {
         "C11" => c11::replay(payload),
         "C12" => c12::replay(payload),
         "C13" => c13::replay(payload),
+        "C14" => c14::replay(payload),
         "C15" => c15::replay(payload),
         "C16" => c16::replay(payload),
         "C17" => c17::replay(payload),
